@@ -33,6 +33,8 @@ pub enum Seg {
     /// comment: style index (line leaders first, then block styles), lines of prose-word indices,
     /// optional ignore marker, star-prefixed block lines, indentation
     Comment { style: u8, lines: Vec<Vec<u16>>, ignore: Option<u8>, stars: bool, indent: u8 },
+    /// a line comment whose prose opens with `word:word` (prose, not a directive)
+    KeyValueComment { style: u8, words: Vec<u16>, indent: u8 },
     Blank,
 }
 
@@ -196,6 +198,23 @@ fn render_source(spec: &'static LangSpec, segs: &[Seg], crlf: bool) -> Truth {
                 }
                 t.raw(nl);
                 last_was_comment = false;
+            }
+            Seg::KeyValueComment { style, words, indent: ind } => {
+                if spec.line.is_empty() || words.len() < 3 {
+                    continue;
+                }
+                let vocab = &g::harvest().plain_words;
+                let w = |i: usize| vocab[crate::core::pick_idx(words[i], vocab.len())].clone();
+                t.raw(indent(*ind));
+                t.raw(spec.line[*style as usize % spec.line.len()]);
+                t.raw(" ");
+                t.word(&w(0));
+                t.raw(":");
+                t.word(&w(1));
+                t.raw(" ");
+                t.sentence(&words[2..]);
+                t.raw(nl);
+                last_was_comment = true;
             }
             Seg::Comment { style, lines, ignore, stars, indent: ind } => {
                 let nline = spec.line.len();
@@ -487,7 +506,20 @@ fn render_git(subject: &[u16], body: &[Vec<u16>], trailer: u8) -> Truth {
 fn render_typst(parts: &[(u8, Vec<u16>, u8)]) -> Truth {
     let mut t = Truth::new("typst");
     for (kind, ws, s) in parts {
-        match kind % 9 {
+        match kind % 10 {
+            9 => {
+                // string literal in code: displayed content, linted by design; escapes in between
+                let vocab = &g::harvest().plain_words;
+                t.raw("#let m = \"");
+                for (i, ix) in ws.iter().enumerate() {
+                    if i > 0 {
+                        t.raw([" ", " \\\" ", "\\\" ", " \\\\ "][(*s as usize + i) % 4]);
+                    }
+                    t.word(&vocab[crate::core::pick_idx(*ix, vocab.len())]);
+                }
+                t.raw("\"");
+                t.prose_segments += 1;
+            }
             0 => t.sentence(ws),
             1 => {
                 t.raw("= ");
@@ -650,6 +682,7 @@ fn source_spec(lang: &'static str) -> BoxedStrategy<FileSpec> {
         5 => (any::<u8>(), proptest::collection::vec(words(2, 6), 1..4), proptest::option::weighted(0.15, any::<u8>()), any::<bool>(), 0u8..4)
             .prop_map(|(style, lines, ignore, stars, indent)| Seg::Comment { style, lines, ignore, stars, indent }),
         1 => Just(Seg::Blank),
+        1 => (any::<u8>(), words(3, 6), 0u8..4).prop_map(|(style, words, indent)| Seg::KeyValueComment { style, words, indent }),
     ];
     (proptest::collection::vec(seg, 2..9), prop::bool::weighted(0.2))
         .prop_map(move |(segs, crlf)| FileSpec::Source { lang: lang.to_string(), segs, crlf })
